@@ -65,7 +65,7 @@ def cases(tier):
     return cs
 
 
-OPTS = {'quick': dict(max_paths=20000, budget_s=240), 'thorough': dict(max_paths=200000, budget_s=1500)}
+OPTS = {'quick': dict(max_paths=20000, budget_s=900), 'thorough': dict(max_paths=200000, budget_s=1500)}
 
 
 def body(I, case):
